@@ -403,6 +403,15 @@ class C20(Scenario):
                             "fingerprint": fp,
                         }
                     )
+                elif "got_trail" in v:
+                    viols.append(
+                        {
+                            "clause": "D1-model",
+                            "unit": ui,
+                            "detail": {"got_trail": v["got_trail"], "want_trail": v["want_trail"], "mode": op[4]},
+                            "fingerprint": "wrong-traversal",
+                        }
+                    )
                 elif rm != rt:
                     viols.append(
                         {
